@@ -39,7 +39,7 @@ Lemma operand_order_value : forall (Q : string -> Z -> bool -> bool -> bool) op 
 Proof.
   intros Q op k args args' fuel r r' K P W W' H H'.
   destruct (simp_sound_frag1 Q fuel _ _ W H) as (_ & S1 & E1). destruct (simp_sound_frag1 Q fuel _ _ W' H') as (_ & S2 & E2).
-  destruct (wf_op_inv Q _ _ W) as (Wl & a & l & -> & _ & Sl). destruct (wf_op_inv Q _ _ W') as (Wl' & a' & l' & -> & _ & Sl').
+  destruct (wf_op_inv Q _ _ W (aop_noshift _ _ K)) as (Wl & a & l & -> & _ & Sl). destruct (wf_op_inv Q _ _ W' (aop_noshift _ _ K)) as (Wl' & a' & l' & -> & _ & Sl').
   assert (Pa : 0 < size a) by (inversion Wl; subst; apply (wf_range Q (fun _ => 0) (fun _ => 0) (fun _ _ => 0)); assumption).
   assert (Sa : size a' = size a).
   { assert (I : In a' (a :: l)) by (apply (Permutation_in a' (Permutation_sym P)); left; reflexivity).
